@@ -32,6 +32,50 @@ type closureVal struct {
 	fn       *ssa.Function
 	bindings []Val
 	recv     *Val // bound method receiver
+	// a function value that depends on the path taken: one closure per condition (merged at a join)
+	alts []cloAlt
+	// a function value the engine cannot follow (loop-carried function variable): calls through it are unknown calls
+	unknown bool
+}
+
+type cloAlt struct {
+	cond string
+	clo  *closureVal
+}
+
+func sameClosure(a, b *closureVal) bool {
+	if a == b {
+		return true
+	}
+	if a == nil || b == nil || a.unknown || b.unknown || len(a.alts) > 0 || len(b.alts) > 0 {
+		return false
+	}
+	if a.fn != b.fn || len(a.bindings) != len(b.bindings) || (a.recv == nil) != (b.recv == nil) {
+		return false
+	}
+	if a.recv != nil && a.recv.S != b.recv.S {
+		return false
+	}
+	for i := range a.bindings {
+		if a.bindings[i].S != b.bindings[i].S {
+			return false
+		}
+	}
+	return true
+}
+
+func flattenAlts(c string, clo *closureVal) []cloAlt {
+	if clo == nil {
+		return nil
+	}
+	if len(clo.alts) == 0 {
+		return []cloAlt{{c, clo}}
+	}
+	var out []cloAlt
+	for _, a := range clo.alts {
+		out = append(out, cloAlt{and(c, a.cond), a.clo})
+	}
+	return out
 }
 
 type iterVal struct {
@@ -94,6 +138,8 @@ type Obligation struct {
 	inputs []string // names of input constants for model extraction
 	tags   map[int]bool
 	priority bool // proved on the pinned tree: worth the long stages
+	inVals, outVals []Val // symbolic parameters / merged results of the function (for replay)
+	prog            *Prog
 }
 
 // ---------- engine ----------
@@ -125,6 +171,7 @@ type Engine struct {
 	ghosts        map[string]*ghostRef
 	ioSites       []ioSite
 	constArrs     map[string]string
+	outputs   []Val
 	sumByExpr map[*EQuant][]sumInst
 	sumFns        map[string]string
 	sortPerms     []sortPerm
@@ -880,10 +927,20 @@ func predIndex(b *ssa.BasicBlock, p *ssa.BasicBlock) int {
 
 func (fr *Frame) iteVal(c string, a, b Val) Val {
 	if a.Clo != nil || b.Clo != nil {
-		if a.Clo != nil {
+		if sameClosure(a.Clo, b.Clo) {
 			return a
 		}
-		return b
+		if (a.Clo != nil && a.Clo.unknown) || (b.Clo != nil && b.Clo.unknown) {
+			return Val{S: a.S, T: a.T, Clo: &closureVal{unknown: true}}
+		}
+		// the function called depends on the path: keep one alternative per condition (a missing side is a nil
+		// function value, which is never called on a panic-free path)
+		alts := append(flattenAlts(c, a.Clo), flattenAlts(not(c), b.Clo)...)
+		t := a.T
+		if t == nil {
+			t = b.T
+		}
+		return Val{S: a.S, T: t, Clo: &closureVal{alts: alts}}
 	}
 	if len(a.Tup) > 0 {
 		r := Val{T: a.T}
@@ -1160,7 +1217,14 @@ func (fr *Frame) loopCut(li *loopInfo, cur *State, phiVals map[*ssa.Phi]Val) {
 		if !okv {
 			continue
 		}
-		if v.Clo != nil || len(v.Tup) > 0 {
+		if v.Clo != nil {
+			// a loop-carried function variable: unknown at the head of an arbitrary iteration
+			nv := Val{S: v.S, T: phi.Type(), Clo: &closureVal{unknown: true}}
+			phiVals[phi] = nv
+			hv[phi] = nv
+			continue
+		}
+		if len(v.Tup) > 0 {
 			continue
 		}
 		c := e.vc.fresh("loop_"+phi.Comment, e.vc.sortOf(phi.Type()))
@@ -1178,6 +1242,11 @@ func (fr *Frame) loopCut(li *loopInfo, cur *State, phiVals map[*ssa.Phi]Val) {
 		modNames = append(modNames, n)
 	}
 	sort.Strings(modNames)
+	autoFrame := fr.autoFrameHeaps(mods)
+	for _, n := range autoFrame {
+		srt := e.heapSorts[n]
+		e.addObl(cur, fmt.Sprintf("loop%d.inv.init", li.ordinal), fr.lbl("auto_frame_"+n), eq(e.heap(cur, n, srt), e.heap(fr.entry, n, srt)), h.Instrs[0].Pos())
+	}
 	for _, name := range modNames {
 		if name == "G_*" {
 			e.havocGhost(cur)
@@ -1202,6 +1271,9 @@ func (fr *Frame) loopCut(li *loopInfo, cur *State, phiVals map[*ssa.Phi]Val) {
 				e.vc.assume(fmt.Sprintf("(forall ((r Int)) (! %s :pattern ((select %s r))))", body, nw))
 			}
 		}
+	}
+	for _, n := range autoFrame {
+		cur.heaps[n] = e.heap(fr.entry, n, e.heapSorts[n])
 	}
 	{
 		nt := e.vc.fresh("top", "Int")
@@ -1326,6 +1398,46 @@ type modInfo struct {
 }
 
 // loopMods: heaps that may be modified inside the loop (syntactic over-approximation).
+// autoFrameHeaps: ghost heaps that the loop may syntactically modify (usually through a call the analysis cannot
+// resolve) but that the contract of the function under verification does not list in `modifies`. They get the
+// automatic loop invariant "equal to its value on entry of the function" (checked like any invariant), instead
+// of being lost at the loop cut.
+func (fr *Frame) autoFrameHeaps(mods map[string]*modInfo) []string {
+	e := fr.e
+	if !fr.top || fr.contract == nil {
+		return nil
+	}
+	allowed := map[string]bool{}
+	for _, m := range e.expandMods(fr.contract.Modifies) {
+		n := e.modName(m)
+		if n == "G_*" {
+			return nil
+		}
+		allowed[n] = true
+	}
+	var out []string
+	seen := map[string]bool{}
+	add := func(n string) {
+		if strings.HasPrefix(n, "G_") && n != "G_*" && !allowed[n] && !seen[n] {
+			if _, ok := e.heapSorts[n]; ok {
+				seen[n] = true
+				out = append(out, n)
+			}
+		}
+	}
+	for n := range mods {
+		if n == "G_*" {
+			for k := range e.heapSorts {
+				add(k)
+			}
+		} else {
+			add(n)
+		}
+	}
+	sort.Strings(out)
+	return out
+}
+
 func (fr *Frame) loopMods(li *loopInfo) map[string]*modInfo {
 	mods := map[string]*modInfo{}
 	fr.modsOf(fr.fn, li.blocks, 0, mods, true)
@@ -1722,6 +1834,10 @@ func (fr *Frame) backEdges(b *ssa.BasicBlock, st *State) {
 		for _, inv := range fr.loopInvariants(li) {
 			f := e.evalBool(inv.expr, env)
 			e.addObl(bst, fmt.Sprintf("loop%d.inv.preserved", li.ordinal), fr.lbl(inv.label), f, b.Instrs[len(b.Instrs)-1].Pos())
+		}
+		for _, n := range fr.autoFrameHeaps(fr.loopMods(li)) {
+			srt := e.heapSorts[n]
+			e.addObl(bst, fmt.Sprintf("loop%d.inv.preserved", li.ordinal), fr.lbl("auto_frame_"+n), eq(e.heap(bst, n, srt), e.heap(fr.entry, n, srt)), b.Instrs[len(b.Instrs)-1].Pos())
 		}
 	}
 }
